@@ -3,6 +3,7 @@
 package main
 
 import (
+	"time"
 	"net/url"
 	"fmt"
 	"net/http"
@@ -156,6 +157,21 @@ func runC15(c *ctx) {
 					"idpcalls", len(s.idp.callsSince(nc)), "nocache", strings.Contains(resp.Header.Get("Cache-Control"), "no-store") || strings.Contains(resp.Header.Get("Cache-Control"), "no-cache"))
 			}
 		}
+	}
+	// (b'') a browser WITH a session that keeps being sent to the login endpoint, login rate limit on: the redirects and then the 429 pages are generated by wonderwall
+	// on an owned endpoint and are non-cacheable like everything else there (a cached 429 would keep answering after the window)
+	{
+		s := newSut(sutOpts{ingresses: []string{"http://wonderwall"}, sidRequired: true, rateLimit: &config.RateLimit{Enabled: true, Logins: 3, Window: 5 * time.Second}})
+		rp := s.replica("A")
+		b := newBrowser()
+		if _, err := s.login(b, rp, "http://wonderwall", ""); err == nil {
+			for i := 0; i < 7; i++ {
+				resp := b.do(rp, "GET", "http://wonderwall/oauth2/login", http.Header{"Sec-Fetch-Mode": {"navigate"}, "Sec-Fetch-Dest": {"document"}})
+				cc := resp.Header.Get("Cache-Control")
+				c.emit("owncache", "ep", hx("/oauth2/login"), "n", i, "status", resp.Status, "cc", hx(cc), "nocache", strings.Contains(cc, "no-store") || strings.Contains(cc, "no-cache"))
+			}
+		}
+		s.close()
 	}
 	// (b') the responses an SSO PROXY generates itself on owned endpoints (redirects to the SSO server, the callback bounce): marked non-cacheable like any other
 	{
